@@ -1,22 +1,106 @@
-import Hgxv.Model.C15
-/-! # C15 — Hy-MMSBM quantities equal their definitions; EM ascends, fixed inputs stay -/
-open C15
+import Hgxv.Proofs.C15Closed
+import Hgxv.Proofs.C15Loop
+import Mathlib.Tactic.IntervalCases
+/-! # C15 — Hy-MMSBM quantities equal their definitions; EM ascends, fixed inputs stay
+
+Theorems about the executable model `Hgxv/Model/C15.lean` (exact rationals; `Real.log` for the
+likelihood).  Notation of the helper files: `nodesOf N e` = the nodes of hyperedge `e` among `0..N-1`,
+`aij K u w i j = bf K (u i) (u j) w = u_iᵀ w u_j`, `pairSum K u w s = Σ_{i<j∈s} u_iᵀ w u_j`,
+`chat u s a b = ½ Σ_{i≠j∈s} u_ia u_jb`, `penLik d u r w = Σ_e A_e log λ_e(w) − Σ_{i<j} u_iᵀ w u_j − Σ_ab r_ab w_ab`.
+Hyperedges of size 1 (Poisson parameter 0) are outside the hypotheses `0 < λ_e` of the update theorems. -/
+open C15 Finset
+
+/-! ## Poisson parameters -/
+
+/-- `poisson_params`: for a symmetric affinity the code's `0.5·(s_eᵀ w s_e − Σ_{i∈e} u_iᵀ w u_i)` is the sum
+over the node pairs of the hyperedge.  Hypothesis = the constructor's check `w == w.T`. -/
+theorem C15_poisson (N K : ℕ) (u w : Mat) (e : List ℕ) (hw : ∀ a < K, ∀ b < K, w a b = w b a) :
+    poisson N K u w e = ∑ p ∈ (nodesOf N e).offDiag with p.1 < p.2, bf K (u p.1) (u p.2) w :=
+  poisson_eq_pairSum N K u w e hw
+
+/-- `bf_and_sum(u, w) = Σ_{i<j} u_iᵀ w u_j` -/
+theorem C15_bf_and_sum (N K : ℕ) (u w : Mat) (hw : ∀ a < K, ∀ b < K, w a b = w b a) :
+    bfSum N K u w = ∑ p ∈ (range N).offDiag with p.1 < p.2, bf K (u p.1) (u p.2) w :=
+  bfSum_eq_pairSum N K u w hw
+
+/-! ## double counting -/
+
+/-- over all hyperedges of size `d ≥ 2` on the node set `V`, every node pair is counted `C(|V|−2, d−2)` times -/
+theorem C15_count (V : Finset ℕ) (d : ℕ) (hd : 2 ≤ d) (a : ℕ → ℕ → ℚ) :
+    ∑ e ∈ V.powersetCard d, ∑ p ∈ e.offDiag with p.1 < p.2, a p.1 p.2
+      = (Nat.choose (V.card - 2) (d - 2) : ℚ) * ∑ p ∈ V.offDiag with p.1 < p.2, a p.1 p.2 := by
+  simp only [Finset.sum_filter]
+  exact count_pairs V d hd (fun i j => if i < j then a i j else 0)
+
+/-- the same over the hyperedges that contain node `i`: pairs through `i` are counted `C(|V|−2, d−2)` times,
+pairs avoiding `i` are counted `C(|V|−3, d−3)` times (`cnt3`: never when `d = 2`) -/
+theorem C15_count_node (V : Finset ℕ) (d : ℕ) (hd : 2 ≤ d) (i : ℕ) (hi : i ∈ V) (a : ℕ → ℕ → ℚ) :
+    ∑ e ∈ V.powersetCard d with i ∈ e, ∑ p ∈ e.offDiag with p.1 < p.2, a p.1 p.2
+      = ∑ p ∈ V.offDiag with p.1 < p.2, a p.1 p.2 *
+          (if i = p.1 ∨ i = p.2 then (Nat.choose (V.card - 2) (d - 2) : ℚ) else (cnt3 V.card d : ℚ)) := by
+  have h := count_pairs_node V d hd i hi (fun i j => if i < j then a i j else 0)
+  have hl : ∀ e ∈ (V.powersetCard d).filter (i ∈ ·), ∑ p ∈ e.offDiag with p.1 < p.2, a p.1 p.2
+      = ∑ p ∈ e.offDiag, (fun i j => if i < j then a i j else 0) p.1 p.2 := fun e _ => Finset.sum_filter _ _
+  rw [Finset.sum_congr rfl hl, h, Finset.sum_filter]
+  apply Finset.sum_congr rfl
+  intro p _
+  split <;> simp
+
+/-! ## closed forms = sums over ALL possible hyperedges of Poisson parameter / κ -/
+
+/-- `κ_d = C(N−2, d−2) · C(d, 2)`: (hyperedges of size `d` through a node pair) × (node pairs in one) -/
+theorem C15_kappa (N d : ℕ) (hd : 2 ≤ d) :
+    kappa N d = (Nat.choose (N - 2) (d - 2) : ℚ) * (Nat.choose d 2 : ℚ) := by
+  rw [kappa_eq, Nat.choose_two_right, Nat.cast_div (Nat.even_mul_pred_self d).two_dvd (by norm_num),
+    Nat.cast_mul, Nat.cast_pred (by omega)]
+  push_cast; ring
+
+/-- summand of `C`: `2/(d(d−1)) = C(N−2, d−2)/κ_d` (the docstring's formula) -/
+theorem C15_C_term (N d : ℕ) (hd : 2 ≤ d) (hN : d ≤ N) :
+    Cterm d = (Nat.choose (N - 2) (d - 2) : ℚ) / kappa N d := by
+  rw [kappa_eq]
+  have h1 := (choose_pos' N d hd hN).ne'
+  obtain ⟨h2, h3⟩ := d_pos d hd
+  unfold Cterm; field_simp
+
+/-- `dimension_sequence(expected=True)[d] = C(d)·bf_and_sum(u, w)` is the expected number of hyperedges of
+size `d`: the sum over all `d`-subsets `e` of `λ_e/κ_d`.  Hypotheses: `w` symmetric, `2 ≤ d ≤ N`. -/
+theorem C15_dim_seq (N K : ℕ) (u w : Mat) (hw : ∀ a < K, ∀ b < K, w a b = w b a) (d : ℕ) (hd : 2 ≤ d) (hN : d ≤ N) :
+    Cterm d * bfSum N K u w = ∑ e ∈ (range N).powersetCard d, pairSum K u w e / kappa N d := by
+  rw [dim_closed N K u w d hd hN, bfSum_eq_pairSum N K u w hw]
+
+/-- the returned dictionary holds exactly the sizes with a positive expected count -/
+theorem C15_dim_seq_mem (N K : ℕ) (u w : Mat) (ds : List ℕ) (p : ℕ × ℚ) :
+    p ∈ expDimSeq N K u w ds ↔ p.1 ∈ ds ∧ p.2 = Cterm p.1 * bfSum N K u w ∧ 0 < p.2 := by
+  unfold expDimSeq
+  simp only [List.mem_filter, List.mem_map, decide_eq_true_eq]
+  constructor
+  · rintro ⟨⟨d, hd, rfl⟩, hpos⟩; exact ⟨hd, rfl, hpos⟩
+  · rintro ⟨hd, hv, hpos⟩; exact ⟨⟨p.1, hd, by rw [← hv]⟩, hpos⟩
+
+/-- `expected_degree(per_node=False, d=ds) = C''(ds)·bf_and_sum(u, w)` is the average over the nodes of the
+expected degree, the expected degree of node `i` being the sum over all hyperedges `e ∋ i` with a size in `ds`
+of `λ_e/κ_|e|`.  Hypotheses: `w` symmetric, `N ≥ 1`, every size in `2..N`. -/
+theorem C15_exp_degree_avg (N K : ℕ) (u w : Mat) (hw : ∀ a < K, ∀ b < K, w a b = w b a) (hN : 1 ≤ N)
+    (ds : List ℕ) (hds : ∀ d ∈ ds, 2 ≤ d ∧ d ≤ N) :
+    expDegAvg N K u w ds
+      = 1 / (N : ℚ) * ∑ i ∈ range N, sumL ds fun d =>
+          ∑ e ∈ (range N).powersetCard d with i ∈ e, pairSum K u w e / kappa N d := by
+  unfold expDegAvg Csecond
+  rw [sum_sumL, mul_sumL, mul_sumL, sumL_mul]
+  apply sumL_congr
+  intro d hd
+  obtain ⟨h2, hdN⟩ := hds d hd
+  rw [sum_nodes_powerset N d (fun e => pairSum K u w e / kappa N d), dim_closed N K u w d h2 hdN,
+    bfSum_eq_pairSum N K u w hw]
+  obtain ⟨h3, h4⟩ := d_pos d h2
+  have hNq : (0 : ℚ) < (N : ℚ) := by exact_mod_cast hN
+  unfold Cterm; field_simp
 
 /-! ## `fit` never changes a supplied parameter
-For every data set, every supplied array, every value of the random initialisation (`u0`, `w0`),
-every prior, every `n`: the returned object holds the very array that was supplied. -/
-
-theorem emLoop_u_fixed (d : Data) (fw : Bool) (ru rw : Mat) (n : Nat) (p : Params) :
-    (emLoop d true fw ru rw n p).u = p.u := by
-  induction n with
-  | zero => rfl
-  | succ n ih => simp [emLoop, emStep, ih]
-
-theorem emLoop_w_fixed (d : Data) (fu : Bool) (ru rw : Mat) (n : Nat) (p : Params) :
-    (emLoop d fu true ru rw n p).w = p.w := by
-  induction n with
-  | zero => rfl
-  | succ n ih => simp [emLoop, emStep, ih]
+For every data set, every supplied array, every value of the random initialisation (`u0`, `w0`), every prior,
+every `n`: the returned object holds the very array that was supplied (the model is pure, so the caller's
+array cannot be written either; on the code this is checked by comparing with a copy). -/
 
 theorem C15_fixed_u (d : Data) (us : List (List Rat)) (wSup : Option (List (List Rat)))
     (Dsup : Option Nat) (u0 w0 : List (List Rat)) (ru rw : Mat) (sqrtC : Rat) (n D : Nat) (p : Params)
@@ -49,3 +133,63 @@ theorem C15_fixed_max_size (d : Data) (uSup wSup : Option (List (List Rat))) (D0
   · simp [hlt] at h
   · simp only [hlt, if_false, Option.some.injEq, Prod.mk.injEq] at h
     omega
+
+/-! ## the updates keep the parameters non-negative, `w` symmetric / diagonal, and finite -/
+
+/-- `_w_update`: for `u, w, A, r ≥ 0` every entry of the new `w` is `≥ 0`; it is symmetric where `w` and the
+prior are, and zero where `w` is zero (diagonal stays diagonal).  (`u ≥ 0`, `w ≥ 0` symmetric are the
+constructor's checks; weights are positive.) -/
+theorem C15_update_nonneg_sym (d : Data) (u w r : Mat) (hu : ∀ i a, 0 ≤ u i a) (hw : ∀ a b, 0 ≤ w a b)
+    (hA : ∀ e, 0 ≤ d.A e) (hr : ∀ a b, 0 ≤ r a b) :
+    (∀ a b, 0 ≤ wUpdate d u w r a b) ∧
+    (∀ a b, w a b = w b a → r a b = r b a → wUpdate d u w r a b = wUpdate d u w r b a) ∧
+    (∀ a b, w a b = 0 → wUpdate d u w r a b = 0) :=
+  ⟨wUpdate_nonneg d u w r hu hw hA hr, fun a b h1 h2 => wUpdate_symm d u w r a b h1 h2,
+   fun a b h => wUpdate_zero d u w r a b h⟩
+
+/-- `_u_update`: for `u, w, A, r ≥ 0`, `w` symmetric, every entry of the new `u` is `≥ 0` -/
+theorem C15_u_update_nonneg (d : Data) (u w r : Mat) (hu : ∀ i a, 0 ≤ u i a) (hw : ∀ a b, 0 ≤ w a b)
+    (hsym : ∀ a < d.K, ∀ b < d.K, w a b = w b a) (hA : ∀ e, 0 ≤ d.A e) (hr : ∀ i a, 0 ≤ r i a) :
+    ∀ i < d.N, ∀ a < d.K, 0 ≤ uUpdate d u w r i a :=
+  fun i hi a ha => uUpdate_nonneg d u w r hu hw hsym hA hr i hi a ha
+
+/-- finite: when every Poisson parameter of the data and every denominator is positive, no division by zero
+occurs (the guarded update returns the array) -/
+theorem C15_update_finite (d : Data) (u w r : Mat)
+    (hlam : ∀ e < d.E, 0 < poisson d.N d.K u w (d.edge e))
+    (hden : ∀ a < d.K, ∀ b < d.K, 0 < wDen d.N u a b + r a b) :
+    wUpdate? d u w r = some (wUpdate d u w r) := by
+  unfold wUpdate?
+  rw [if_pos]
+  unfold wUpdateOk
+  simp only [Bool.and_eq_true, allTo_iff, decide_eq_true_eq]
+  exact ⟨fun e he => (hlam e he).ne', fun a ha b hb => (hden a ha b hb).ne'⟩
+
+/-! ## ascent -/
+
+/-- **One `_w_update` never decreases the penalised log-likelihood** `penLik` (rate matrix `r`; for `r = 0` it
+is the Poisson log-likelihood up to a constant).  Hypotheses: `u, w ≥ 0`, positive weights, positive Poisson
+parameters of the data hyperedges (sizes ≥ 2 with overlapping memberships), positive denominators
+(`r > 0`, or two nodes share the communities).  The invariants needed to iterate are part of the conclusion. -/
+theorem C15_ascent_step (d : Data) (u w r : Mat) (hu : ∀ i a, 0 ≤ u i a) (hw : ∀ a b, 0 ≤ w a b)
+    (hA : ∀ e, 0 < d.A e) (hr : ∀ a b, 0 ≤ r a b)
+    (hlam : ∀ e < d.E, 0 < poisson d.N d.K u w (d.edge e))
+    (hden : ∀ a < d.K, ∀ b < d.K, 0 < wDen d.N u a b + r a b) :
+    penLik d u r w ≤ penLik d u r (wUpdate d u w r) ∧
+    (∀ a b, 0 ≤ wUpdate d u w r a b) ∧
+    (∀ e < d.E, 0 < poisson d.N d.K u (wUpdate d u w r) (d.edge e)) :=
+  ⟨ascent_step d u w r hu hw hA hlam hden, wUpdate_nonneg d u w r hu hw (fun e => (hA e).le) hr,
+   poisson_pos_after d u w r hu hw hA hr hlam hden⟩
+
+/-- **Memberships supplied ⇒ the penalised log-likelihood of the affinity after `n+1` passes of `fit`'s loop
+is at least that after `n` passes**, for every initial draw `w0 ≥ 0` with positive Poisson parameters.
+With `w_prior = 0` this is the property's statement (`penLik` with `r = 0` is the exact Poisson
+log-likelihood of the data under the returned `w/C` up to an additive constant, see notes). -/
+theorem C15_ascent (d : Data) (us w0 : List (List Rat)) (ru rw : Mat)
+    (hu : ∀ i a, 0 ≤ matOf us i a) (hw0 : ∀ a b, 0 ≤ matOf w0 a b) (hA : ∀ e, 0 < d.A e)
+    (hr : ∀ a b, 0 ≤ rw a b)
+    (hlam : ∀ e < d.E, 0 < poisson d.N d.K (matOf us) (matOf w0) (d.edge e))
+    (hden : ∀ a < d.K, ∀ b < d.K, 0 < wDen d.N (matOf us) a b + rw a b) (n : ℕ) :
+    penLik d (matOf us) rw (matOf (emLoop d true false ru rw n { u := us, w := w0 }).w)
+      ≤ penLik d (matOf us) rw (matOf (emLoop d true false ru rw (n + 1) { u := us, w := w0 }).w) :=
+  loop_ascent d us w0 ru rw hu hw0 hA hr hlam hden n
